@@ -15,6 +15,39 @@ def assertion_methods(p):
     return [f for n, f in sorted(c.methods.items()) if n.startswith('assert')]
 
 
+# documented design, frozen: the on-disk DataFrame assertions file parquet references under the 'csv' kind
+# ("CSV is used here, and applies, for now, to parqet as well as CSV" in both docstrings)
+KIND_ALIAS = {
+    "ReferenceTest.assertOnDiskDataFrameCorrect::if kind == 'parquet'::kind = 'csv'": 'docstring: csv kind applies to parquet',
+    "ReferenceTest.assertOnDiskDataFramesCorrect::if kind == 'parquet'::kind = 'csv'": 'docstring: csv kind applies to parquet',
+}
+
+
+def stored_names(n):
+    """Names (re)bound directly by node n."""
+    tg = []
+    if isinstance(n, ast.Assign):
+        tg = n.targets
+    elif isinstance(n, (ast.AugAssign, ast.AnnAssign, ast.NamedExpr)):
+        tg = [n.target]
+    elif isinstance(n, (ast.For, ast.AsyncFor, ast.comprehension)):
+        tg = [n.target]
+    elif isinstance(n, (ast.With, ast.AsyncWith)):
+        tg = [i.optional_vars for i in n.items if i.optional_vars is not None]
+    elif isinstance(n, ast.ExceptHandler) and n.name:
+        return [n.name]
+    elif isinstance(n, (ast.Import, ast.ImportFrom)):
+        return [(a.asname or a.name).split('.')[0] for a in n.names]
+    elif isinstance(n, ast.Delete):
+        tg = n.targets
+    out = []
+    for t in tg:
+        for x in ast.walk(t):
+            if isinstance(x, ast.Name) and isinstance(x.ctx, (ast.Store, ast.Del)):
+                out.append(x.id)
+    return out
+
+
 def regen_guard(g):
     """(polarity, kind-argument expr) if g is a test of self._should_regenerate(k)."""
     if g.kind != 'if':
@@ -104,6 +137,22 @@ def check(run):
                     seen_k += 1
                     if not (isinstance(karg, ast.Name) and karg.id == 'kind'):
                         bad.append(('%s receives %s instead of kind' % (nm, ast.unparse(karg)), n))
+            # the parameter itself must still be the caller's label when it is used
+            par = {}
+            for n in p.own_nodes(m):
+                for c in ast.iter_child_nodes(n):
+                    par[c] = n
+            for n in p.own_nodes(m):
+                for t in stored_names(n):
+                    if t == 'kind':
+                        seen_k += 1
+                        up = par.get(n)
+                        cond = 'if %s::' % norm(up.test) if isinstance(up, ast.If) and n in up.body else ''
+                        key = '%s::%s%s' % (m.short, cond, norm(n))
+                        if key in KIND_ALIAS:
+                            run.note('C10-KINDFWD', 'documented alias kept: %s (%s)' % (key, KIND_ALIAS[key]), fn=m, node=n)
+                        else:
+                            bad.append(('the kind label is rewritten before it is used: %s' % norm(n)[:80], n))
             dd = {}
             for msg, node in bad:
                 dd[msg] = node
